@@ -5,6 +5,7 @@
 // non-empty, absolute stays absolute).
 #include "gen.hpp"
 #include "parse_common.hpp"
+#include "pathenum.hpp"
 
 using namespace vf;
 
@@ -131,14 +132,27 @@ static Verdict check(const Fields &f) {
   if (sw) stats().hit("fault_bit_but_success_reported");
   Stats &S = stats();
   static const char *kinds[] = {"ref=same_scheme_absolute", "ref=other_scheme_absolute", "ref=network_path", "ref=absolute_path", "ref=relative_path", "ref=empty_path"};
-  S.hit(kinds[f.geti("kind") % 6]);
+  if (f.geti("kind") < 6) S.hit(kinds[f.geti("kind") % 6]); else S.hit("ref=enumerated");
   S.hit(MB.hasAuth ? "base=authority" : MB.path.empty() ? "base=empty_path" : MB.path[0] == '/' ? "base=rooted" : "base=rootless");
   MNormPath np = m_norm_path(MR);
   static const char *cn[] = {"dots=plain", "dots=cancel_completely", "dots=expose_empty_segment", "dots=expose_colon_segment", "dots=expose_slashslash"};
   if (np.dotsRemoved) S.hit(cn[np.corner]); else S.hit("dots=none");
   if (!MR.path.empty() && MR.path.compare(0, 2, "..") == 0) S.hit("leading_dotdot_run");
-  if ((f.geti("kind") == 3 || f.geti("kind") == 4) && pc) S.nontrivial(f.text(), "R=" + esc(rt) + " B=" + esc(bt));
+  bool relOrAbsPath = !MR.hasScheme && !MR.hasAuth && !MR.path.empty();
+  if (relOrAbsPath && pc) S.nontrivial(f.text(), "R=" + esc(rt) + " B=" + esc(bt));
   return Verdict::pass();
 }
 
-const Harness vf::HARNESS = {"C09", gen, check, nullptr, nullptr};
+// every (base, reference) pair of the bounded path domain; R normalised borrowed and after make-owner
+static Verdict enumerate(int tier, int shard, int nshards, Fields *failing) {
+  static PathDomain d = path_domain(tier);
+  uint64_t nb = d.bases.size(), nr = d.refs.size();
+  return enum_drive(nb * nr * 2, shard, nshards, check, [&](uint64_t i) {
+    Fields f;
+    f.set("base", d.bases[(size_t)(i / 2 / nr)]); f.set("ref", d.refs[(size_t)(i / 2 % nr)]);
+    f.seti("kind", 9); f.seti("owned", (long long)(i & 1)); f.seti("fault", 0);
+    return f;
+  }, failing);
+}
+
+const Harness vf::HARNESS = {"C09", gen, check, enumerate, nullptr};
